@@ -10,7 +10,7 @@ KEEP = {
    pp_g4_find_n3 pp_g4_pre_n3 c18_exact_7_7 c18_exact_6_3 c18_exact_3_5 c18_exact_0_0 c18_raw_19 c18_is_equal
    b_rk_fwd_3_8 b_rk_rev_3_8 mm_twoway_fwd mm_twoway_rev mm_rk_fwd mm_rk_rev mm_packed_g4 lane_aligned_sse2 lane_aligned_avx2
    witness_misaligned_sse2 witness_misaligned_avx2 panic_below_min_sse2_find panic_below_min_sse2_pre panic_below_min_avx2_find
-   panic_below_min_g4_pre m_finder_n2_sse2 m_oneshot_rev long_pre_f3_sse2_40 long_pre_f5_sse2_40 long_pre_f0_sse2_40 sse2_one_count""".split(),
+   panic_below_min_g4_pre below_min_reads_sse2_find below_min_reads_sse2_pre below_min_reads_avx2_pre m_finder_n2_sse2 m_oneshot_rev long_pre_f3_sse2_40 long_pre_f5_sse2_40 long_pre_f0_sse2_40 sse2_one_count""".split(),
  "C14": """tw_abstract_2_4_state tw_abstract_3_6 panic_below_min_sse2_find panic_below_min_sse2_pre panic_below_min_avx2_find
    panic_below_min_g4_pre fi_step_n0 fi_step_n2_rk fri_step_n0 g4_one_find g4_one_count swar_one_find swar_one_raw sse2_one_raw
    avx2_two_raw c19_with_ranker_40 c19_with_ranker_257 c19_with_indices m_oneshot_fwd m_oneshot_rev m_finder_n2_sse2 long_pre_f3_sse2_40
